@@ -42,6 +42,9 @@ func judgeC09(sc Scenario, ex *ExecResult) (clause, sig, detail string) {
 	}
 	for i, p := range ex.Sched.Panics {
 		if p != "" {
+			if i >= len(sc.Threads) { // not a thread: the harness's own final Commit of a shared batch
+				return "panic", "panic:final-commit", "after the threads had finished: " + truncate(p, 1500)
+			}
 			return "panic", "panic:" + callKinds(sc.Threads[i]), fmt.Sprintf("thread %d panicked: %s", i, trimStack(p)+" :: "+firstLine(p))
 		}
 	}
